@@ -67,6 +67,7 @@ type syncRemote struct {
 	counts map[string]int
 	r      *rand.Rand
 	onMis  func(answer string) // called when the remote misbehaves (to let a second remote act)
+	extra  map[types.Hash]*nom.DetailedMomentum // momentums the remote serves under these hashes besides its chain
 }
 
 func (sr *syncRemote) send(code uint64, v interface{}) {
@@ -177,6 +178,8 @@ func (sr *syncRemote) handle(msg p2p.Msg) {
 			if dm := sr.src.Bridge.GetBlock(h); dm != nil {
 				w, _ := node.Wire(dm)
 				good = append(good, w)
+			} else if sr.extra != nil && sr.extra[h] != nil {
+				good = append(good, sr.extra[h])
 			}
 		}
 		if a != "correct" && sr.onMis != nil {
